@@ -153,7 +153,7 @@ Section Build.
     | NNullary _ => f_none
     | NUnary _ x => getf fs x
     | NBinary _ x y => f_or (getf fs x) (getf fs y)
-    | NOracle _ => {| f_remap := false; f_oracle := true; f_xyz := false |}
+    | NOracle _ | NOracleT _ _ _ _ => {| f_remap := false; f_oracle := true; f_xyz := false |}
     | NRemap x y z t =>
         f_or {| f_remap := true; f_oracle := false; f_xyz := false |}
              (f_or (f_or (getf fs x) (getf fs y)) (f_or (getf fs z) (getf fs t)))
